@@ -489,6 +489,12 @@ fn run_reports(ctx: &RunCtx) -> RunOut {
     }
     // and it is accounted for: a lost event per report / one failure per ping
     if path == Path::Ping {
+        // the last-contact time is not moved by an unauthenticated ping answer (the differential run
+        // cannot see this if a lost ping moves it too)
+        let lut: Vec<Option<T>> = log_f.iter().filter_map(|o| if let Obs::ComputeNext { sched, .. } = o { Some(sched.last_update_time) } else { None }).collect();
+        if lut.len() >= 2 && lut[lut.len() - 1] != lut[lut.len() - 2] {
+            return out.fail("last-contact time changed by an unauthenticated ping answer", format!("{:?} -> {:?}; {what}", lut[lut.len() - 2], lut[lut.len() - 1]));
+        }
         let fails: Vec<u32> = log_f.iter().filter_map(|o| if let Obs::ComputeNext { state, .. } = o { Some(state.fails) } else { None }).collect();
         if fails.last() != Some(&1) {
             return out.fail("forged ping not counted as one failure", format!("{fails:?}"));
